@@ -291,6 +291,12 @@ func buildEntries() []Entry {
 		strSeeds = append(strSeeds, must(s.Marshal()))
 	}
 	add("types.SMB_STRING.Unmarshal", nonNil(strSeeds...), func(in []byte) { (&types.SMB_STRING{}).Unmarshal(in) })
+	add("types.SMB_STRING.Unmarshal+use", nonNil(strSeeds...), func(in []byte) {
+		x := &types.SMB_STRING{}
+		if _, err := x.Unmarshal(in); err == nil {
+			useDecoded(x)
+		}
+	})
 	add("types.OEM_STRING.Unmarshal", nonNil(must(types.NewOEM_STRINGFromString("FILE.TXT").Marshal())), func(in []byte) { types.NewOEM_STRING().Unmarshal(in) })
 	add("types.SMB_DATE.Unmarshal", [][]byte{{0x21, 0x5A}}, func(in []byte) { types.NewSMB_DATE().Unmarshal(in) })
 	add("types.FILETIME.Unmarshal", [][]byte{{1, 2, 3, 4, 5, 6, 7, 8}}, func(in []byte) { (&data_structures.FILETIME{}).Unmarshal(in) })
@@ -304,6 +310,12 @@ func buildEntries() []Entry {
 	di := types.NewSMB_DIRECTORY_INFORMATION()
 	di.FileName.SetString("A.TXT")
 	add("types.SMB_DIRECTORY_INFORMATION.Unmarshal", nonNil(must(di.Marshal())), func(in []byte) { types.NewSMB_DIRECTORY_INFORMATION().Unmarshal(in) })
+	add("types.SMB_DIRECTORY_INFORMATION.Unmarshal+use", nonNil(must(di.Marshal())), func(in []byte) {
+		d := types.NewSMB_DIRECTORY_INFORMATION()
+		if _, err := d.Unmarshal(in); err == nil {
+			useDecoded(d)
+		}
+	})
 	dl := dialects.NewDialects()
 	dl.AddDialect("NT LM 0.12")
 	dl.AddDialect("LANMAN2.1")
@@ -325,6 +337,13 @@ func buildEntries() []Entry {
 		}
 	}
 	add("ntlm.ParseChallengeMessage", append([][]byte{ch1, ch2, ch3}, oddChals[:6]...), func(in []byte) { ntlm.ParseChallengeMessage(in) })
+	add("ntlm.ParseChallengeMessage+use", append([][]byte{ch1, ch2, ch3}, oddChals[:6]...), func(in []byte) {
+		if c, err := ntlm.ParseChallengeMessage(in); err == nil && c != nil {
+			useDecoded(c)
+			ntlm.ParseTargetInfo(c.TargetInfo)
+			ntlm.CreateAuthenticateMessage(c, "user", "pw", "DOM", "WS")
+		}
+	})
 	ti := ch1[56+12:]
 	add("ntlm.ParseTargetInfo", [][]byte{ti, {0, 0, 0, 0}}, func(in []byte) { ntlm.ParseTargetInfo(in) })
 	tokI := must(spnego.CreateNegTokenInit([]byte("NTLMSSP\x00\x01\x00\x00\x00abcdefgh")))
@@ -333,6 +352,11 @@ func buildEntries() []Entry {
 	tokR2 := must(spnego.CreateNegTokenResp(spnego.AcceptIncomplete, spnego.NtlmOID, ch3))
 	add("spnego.ExtractNTLMToken", nonNil(tokI, tokIL, tokR), func(in []byte) { spnego.ExtractNTLMToken(in) })
 	add("spnego.ParseNegTokenResp", nonNil(tokR, tokR2), func(in []byte) { spnego.ParseNegTokenResp(in) })
+	add("spnego.ParseNegTokenResp+use", nonNil(tokR, tokR2), func(in []byte) {
+		if t, err := spnego.ParseNegTokenResp(in); err == nil && t != nil {
+			useDecoded(t)
+		}
+	})
 	var oddToks [][]byte
 	for _, c := range oddChals {
 		oddToks = append(oddToks, must(spnego.CreateNegTokenResp(spnego.AcceptIncomplete, spnego.NtlmOID, c)))
@@ -373,6 +397,11 @@ func buildEntries() []Entry {
 	}
 	sort.Slice(typed, func(i, j int) bool { return string(typed[i]) < string(typed[j]) })
 	add("llmnr.DecodeMessage", append(nonNil(lb, qb, comp), typed...), func(in []byte) { llmnr.DecodeMessage(in) })
+	add("llmnr.DecodeMessage+use", append(nonNil(lb, qb, comp), typed...), func(in []byte) {
+		if m, err := llmnr.DecodeMessage(in); err == nil && m != nil {
+			useDecoded(m)
+		}
+	})
 	es = append(es, Entry{Name: "llmnr.DecodeMessage.large", Seeds: pointerAmplification(false), Call: func(in []byte) { llmnr.DecodeMessage(in) }, Large: true})
 	off := func(in []byte) (int, []byte) {
 		if len(in) == 0 {
@@ -411,6 +440,12 @@ func buildEntries() []Entry {
 		return b
 	}
 	add("nbtns.NBTNSPacket.Unmarshal", nonNil(pkb, append([]byte{0, 1, 0x01, 0x10, 0, 1, 0, 0, 0, 0, 0, 0, 0x20}, append([]byte("FHEPFCELFDFEEBFEEJEPEOCACACACACA"), 0, 0, 0x20, 0, 1)...), cyc(2, false), cyc(3, true)), func(in []byte) { (&nbtns.NBTNSPacket{}).Unmarshal(in) })
+	add("nbtns.NBTNSPacket.Unmarshal+use", nonNil(pkb, cyc(2, false)), func(in []byte) {
+		p := &nbtns.NBTNSPacket{}
+		if _, err := p.Unmarshal(in); err == nil {
+			useDecoded(p)
+		}
+	})
 	es = append(es, Entry{Name: "nbtns.FirstLevelDecode", Text: true, Small: true, Seeds: strs("FHEPFCELFDFEEBFEEJEPEOCACACACACA", "FHEPFCELFDFEEBFEEJEPEOCACACACACA.corp.example", ""),
 		Call: func(in []byte) { nbtns.FirstLevelDecode(string(in)) }})
 
@@ -484,6 +519,13 @@ func buildEntries() []Entry {
 		(&keycredential.KeyCredential{}).ParseDNWithBinary(keycredential.DNWithBinary{DistinguishedName: "CN=x", BinaryData: in})
 	})
 	add("keycredential.RSAKeyMaterial.FromBytes", nonNil(rsab), func(in []byte) { (&kcrypto.RSAKeyMaterial{}).FromBytes(in) })
+	add("keycredential.RSAKeyMaterial.FromBytes+use", nonNil(rsab), func(in []byte) {
+		k := &kcrypto.RSAKeyMaterial{}
+		if err := k.FromBytes(in); err == nil {
+			k.ToBytes()
+			_ = k.String()
+		}
+	})
 	for _, ver := range []uint32{key.KeyCredentialVersion_0, key.KeyCredentialVersion_1, key.KeyCredentialVersion_2} {
 		ver := ver
 		add(fmt.Sprintf("keycredential.CustomKeyInformation.FromBytes.v%x", ver), [][]byte{{1, 0}, {1, 0, 0, 0, 0, 0, 0, 0, 0, 0, 0, 0}, {1, 2, 0, 1, 0, 0, 1, 2, 3, 4, 5, 6, 7}}, func(in []byte) {
@@ -565,6 +607,11 @@ func buildEntries() []Entry {
 	gN, gD, gB, gP := "123e4567e89b12d3a456426614174000", us, "{"+us+"}", "("+us+")"
 	gX := "{0x123e4567,0xe89b,0x12d3,{0xa4,0x56,0x42,0x66,0x14,0x17,0x40,0x00}}"
 	addText("guid.FromString", strs(gN, gD, gB, gP, gX), func(in []byte) { guid.FromString(string(in)) })
+	addText("guid.FromString+use", strs(gN, gD, gB, gP, gX), func(in []byte) {
+		if g, err := guid.FromString(string(in)); err == nil && g != nil {
+			useDecoded(g)
+		}
+	})
 	addText("guid.FromFormatN", strs(gN), func(in []byte) { guid.FromFormatN(string(in)) })
 	addText("guid.FromFormatD", strs(gD), func(in []byte) { guid.FromFormatD(string(in)) })
 	addText("guid.FromFormatB", strs(gB), func(in []byte) { guid.FromFormatB(string(in)) })
